@@ -352,6 +352,19 @@ func check(c *hx.Ctx, reg *mirror.Registry, k int, mode string, fl []fld, vals [
 			fail("strict-accepted-data", "strict mode decoded the data that followed a rejected template")
 		}
 		c.Add("strict_rejections", 1)
+		// the same rejected template under the id of the twin, which holds a valid (all known) template at this
+		// point: "the data that follows" is rejected too - also data that would fit the older definition
+		tRedef, _ := build(5, tidWithout, fl, vals, true)
+		tr, dr, ok := run(tRedef, dWithout)
+		if !ok {
+			return
+		}
+		if tr.Err == nil {
+			fail("strict-accepted-template", "strict mode accepted a redefinition containing unknown elements")
+		} else if dr.Err == nil {
+			fail("strict-accepted-data", "strict mode rejected the redefinition of a template but decoded the data that followed under the older definition")
+		}
+		c.Add("strict_rejections_of_a_redefinition", 1)
 		return
 	}
 	if tw.Err != nil {
